@@ -61,7 +61,20 @@ func monitorPair(kind string, opName func(Tok) string) Monitor {
 		var out []MonViolation
 		evicted := false
 		var ckFpl uint64
+		cmsTotal := map[int]uint64{} // Count-Min: stream total per instance (updates and merges)
 		for step, op := range ops {
+			if kind == "cms" {
+				switch op.L[0].I() {
+				case cmsNew:
+					cmsTotal[op.L[1].I()] = 0
+				case cmsUpdate:
+					cmsTotal[op.L[1].I()] += op.L[3].U()
+				case cmsMerge:
+					if o := obs[step]; o.Kind == 2 && len(o.L) == 2 && isOk(o.L[0]) {
+						cmsTotal[op.L[1].I()] += cmsTotal[op.L[2].I()]
+					}
+				}
+			}
 			if kind == "cuckoo" && op.L[0].I() == ckNew && len(op.L) > 4 {
 				ckFpl = op.L[4].U()
 			}
@@ -163,7 +176,11 @@ func monitorPair(kind string, opName func(Tok) string) Monitor {
 					continue
 				}
 				if xa.String() != xb.String() {
-					report("differs")
+					if kind == "cms" && code == cmsCount && len(op.L) > 1 && cmsTotal[op.L[1].I()] >= 1<<53 {
+						report("differs/total>=2^53") // Lua doubles: the recorded regime of the Redis variant
+					} else {
+						report("differs")
+					}
 				}
 			}
 		}
